@@ -1,0 +1,14 @@
+//go:build verif
+
+package keeper
+
+// Contracts for the verification machinery in /verif (comment-only file; no code).
+//
+// verif:import host github.com/teleport-network/teleport/x/xibc/core/host
+// verif:import exported github.com/teleport-network/teleport/x/xibc/exported
+// verif:spec unmarshalIface_ClientState(bz []byte) exported.ClientState
+
+// verif:func (Keeper).GetClientState
+//@ ensures [found]  result1 == kvhas(xibc(ctx), host.FullClientStateKey(chainName))
+//@ ensures [value]  result1 ==> result == unmarshalIface_ClientState(kvget(xibc(ctx), host.FullClientStateKey(chainName)))
+//@ ensures [nonnil] result1 ==> result != nil
